@@ -26,7 +26,8 @@ import (
 )
 
 // forms as in the remote harness: the number is the MAILBOX number, several recipients of one
-// transaction may be spellings of one mailbox (a/u, i/I/x/X, c/d/C).
+// transaction may be spellings of one mailbox (a/u, i/I/x/X, c/d/C); t/T/j/y = the domain in absolute
+// form (u1@d.example. / U1@D.EXAMPLE. / u1@пример.example. / its A-label spelling with the root dot).
 func c09LAddr(mbox int, form byte) string {
 	switch form {
 	case 'i':
@@ -47,6 +48,15 @@ func c09LAddr(mbox int, form byte) string {
 		return fmt.Sprintf("e\u0301%d@d.example", mbox)
 	case 'C':
 		return fmt.Sprintf("\u00c9%d@d.example", mbox)
+	case 't':
+		return fmt.Sprintf("u%d@d.example.", mbox)
+	case 'T':
+		return fmt.Sprintf("U%d@D.EXAMPLE.", mbox)
+	case 'j':
+		return fmt.Sprintf("u%d@пример.example.", mbox)
+	case 'y':
+		a, _ := idna.ToASCII("пример.example")
+		return fmt.Sprintf("u%d@%s.", mbox, a)
 	case 'u':
 		return fmt.Sprintf("U%d@D.EXAMPLE", mbox)
 	case 'U':
@@ -416,7 +426,7 @@ func TestVerifC09LMTP(t *testing.T) {
 	}
 	r := vh.NewRng(vh.Seed() + 919)
 	n := vh.N(150)
-	families := []string{"auU", "aU", "iIxX", "cdC", "ix", "xi"}
+	families := []string{"auU", "aU", "iIxX", "cdC", "ix", "xi", "at", "tTa", "tuT", "ij", "yxj", "jyi"}
 	for i := 0; i < n; i++ {
 		nr := 1 + r.Intn(4)
 		var rs []string
@@ -469,7 +479,7 @@ func TestVerifC09LMTP(t *testing.T) {
 			for k := r.Intn(3); k > 0; k-- {
 				id++
 				acc, ok := pick()
-				insert(fmt.Sprintf("%d.%c.%c.%s", id, "aailuxcd"[r.Intn(8)], acc, ok))
+				insert(fmt.Sprintf("%d.%c.%c.%s", id, "aailuxcdtTjy"[r.Intn(12)], acc, ok))
 			}
 			// exact duplicates: one of the recipients is added again (once or twice more) with the very
 			// same address string — next to the first occurrence or later — every occurrence with its own
@@ -501,7 +511,7 @@ func TestVerifC09LMTP(t *testing.T) {
 					if lastOK == "o" {
 						other = "f"
 					}
-					rs = append(rs, fmt.Sprintf("%d.%c.1.%s", id, "aaixuc"[r.Intn(6)], other))
+					rs = append(rs, fmt.Sprintf("%d.%c.1.%s", id, "aaixuctj"[r.Intn(8)], other))
 					if r.Chance(40) {
 						id++
 						rs = append(rs, fmt.Sprintf("%d.%c.1.%s", id, "aail"[r.Intn(4)], lastOK))
